@@ -120,6 +120,21 @@ def faults(cfg, rng):
     for (b, k, a) in dccs:
         p = (B.index(b), k, b[k].index(a))
         if len(a['aspects']) > 1:
+            # the duplicate may differ from the original in everything but the id: fewer / more ports than the aspect whose id it repeats
+            def dup_fewer(c, p=p):
+                asp = c['boards'][p[0]][p[1]][p[2]]['aspects']
+                asp[1] = (asp[0][0], list(asp[1][1])[:-1] or list(asp[1][1]))
+            def dup_more(c, p=p):
+                asp = c['boards'][p[0]][p[1]][p[2]]['aspects']
+                used = {pp for pp, _v in asp[1][1]}
+                asp[1] = (asp[0][0], list(asp[1][1]) + [(next(x for x in range(32) if x not in used), 1)])
+            def dup_last_fewer(c, p=p):
+                asp = c['boards'][p[0]][p[1]][p[2]]['aspects']
+                asp.append((asp[0][0], [(pp, 1 - v) for pp, v in asp[-1][1]][:max(1, len(asp[-1][1]) - 1)]))
+            if len(a['aspects'][1][1]) > 1:
+                m('dup-aspect-id', a['id'] + '/fewer-ports', dup_fewer)
+            m('dup-aspect-id', a['id'] + '/more-ports', dup_more)
+            m('dup-aspect-id', a['id'] + '/appended', dup_last_fewer)
             m('dup-aspect-id', a['id'], lambda c, p=p: c['boards'][p[0]][p[1]][p[2]]['aspects'].__setitem__(1, (c['boards'][p[0]][p[1]][p[2]]['aspects'][0][0], c['boards'][p[0]][p[1]][p[2]]['aspects'][1][1])))
             m('dup-aspect-value', a['id'], lambda c, p=p: c['boards'][p[0]][p[1]][p[2]]['aspects'].__setitem__(1, (c['boards'][p[0]][p[1]][p[2]]['aspects'][1][0], c['boards'][p[0]][p[1]][p[2]]['aspects'][0][1])))
         m('initial-not-an-aspect', a['id'], lambda c, p=p: c['boards'][p[0]][p[1]][p[2]].__setitem__('initial', 'no-such-aspect'))
